@@ -1209,6 +1209,65 @@ pub fn s_eda(cx: &mut Ctx) {
     cx.samples.push(cx.ex.lines.iter().rev().take(3).cloned().collect());
 }
 
+
+/// "compute, collect without the result, let the freed cells be reused, compute again": the classic way
+/// a stale cache entry or a mis-linked chain shows up (C02, C05, C07, C10, C11) — few buckets, so that
+/// the dying result sits behind a live node in its chain
+pub fn s_gc_reuse(cx: &mut Ctx) {
+    let cases = if cx.thorough { 400 } else { 80 };
+    for ci in 0..cases {
+        let n = 3 + cx.rng.below(3) as u32;
+        let bb = cx.rng.below(3);
+        let cb = 2 + cx.rng.below(5);
+        cx_begin!(cx, n, format!("new 8 {} {}", bb, cb), 1);
+        let mut memo = HashMap::new();
+        let mut hs = vec![];
+        for v in 1..=n {
+            hs.push(cx_op!(cx, format!("var {}", v)));
+        }
+        for _ in 0..(2 + cx.rng.below(4)) {
+            let f = rand_fn(cx, n);
+            hs.push(build(cx, &mut memo, f));
+        }
+        for round in 0..6 {
+            let (a, b, c) = (*cx.rng.pick(&hs), *cx.rng.pick(&hs), *cx.rng.pick(&hs));
+            let v = 1 + cx.rng.below(n as u64);
+            let line = match (ci + round) % 5 {
+                0 | 1 => format!("ite {} {} {}", a, b, c),
+                2 => format!("constrain {} {}", a, b),
+                3 => format!("restrict {} {}", a, b),
+                _ => format!("compose {} {} {}", a, v, b),
+            };
+            let r0 = cx.op(line.clone());
+            if cx.rng.chance(1, 2) {
+                cx_op!(cx, format!("size {}", r0));
+            }
+            // collect: the arguments stay, the result dies
+            hs.retain(|&i| cx.ex.live[i]);
+            let roots: Vec<String> = hs.iter().map(|r| r.to_string()).collect();
+            cx_op!(cx, format!("gc {}", roots.join(" ")));
+            cx.op("dump".into());
+            // reuse the freed cells for different nodes
+            for _ in 0..(1 + cx.rng.below(4)) {
+                let (x, y) = (*cx.rng.pick(&hs), *cx.rng.pick(&hs));
+                let op = *cx.rng.pick(&["xor", "and", "or", "eq"]);
+                let t = cx_op!(cx, format!("{} {} {}", op, x, y));
+                if cx.rng.chance(1, 3) {
+                    cx_op!(cx, format!("size {}", t));
+                }
+            }
+            // the same operation again: same function, and every cache entry it meets must be true
+            let r1 = cx.op(line.clone());
+            cx_op!(cx, format!("size {}", r1));
+            if cx.rng.chance(1, 3) {
+                hs.push(r1);
+            }
+            cx.op("digest".into());
+        }
+        cx.end();
+    }
+}
+
 pub fn run_suite(name: &str, cx: &mut Ctx) -> bool {
     match name {
         "mk" => s_mk(cx),
@@ -1216,6 +1275,7 @@ pub fn run_suite(name: &str, cx: &mut Ctx) -> bool {
         "conn" => s_conn(cx),
         "hist" => s_hist(cx),
         "gc_chain" => s_gc_chain(cx),
+        "gc_reuse" => s_gc_reuse(cx),
         "soak" => s_soak(cx),
         "memo" => s_memo(cx),
         "subst" => s_subst(cx),
@@ -1235,5 +1295,5 @@ pub fn run_suite(name: &str, cx: &mut Ctx) -> bool {
 }
 
 pub const ALL_SUITES: &[&str] = &[
-    "mk", "ite3", "conn", "hist", "gc_chain", "soak", "memo", "subst", "compose", "constrain", "restrict", "itec", "count", "export", "table", "cache", "raw", "eda",
+    "mk", "ite3", "conn", "hist", "gc_chain", "gc_reuse", "soak", "memo", "subst", "compose", "constrain", "restrict", "itec", "count", "export", "table", "cache", "raw", "eda",
 ];
